@@ -407,7 +407,7 @@ func (r *FnRun) appendOp(st *State, s SliceVal, tv Val, where string) Val {
 		Base: r.define("abase", Ite(fits, s.Base, nb)), Off: r.define("aoff", Ite(fits, s.Off, r.idxLit(0))),
 		Len: newLen, Cap: r.define("acap", Ite(fits, s.Cap, ncap)), Elem: s.Elem,
 	}
-	if r.bv || r.e.noContents {
+	if r.bv || !r.contents {
 		r.havocArgs(st, []Val{res})
 		return res
 	}
@@ -455,7 +455,7 @@ func (r *FnRun) copyOp(st *State, dst SliceVal, srcv Val, where string) Val {
 		isStr = true
 	}
 	n := r.define("copied", Ite(r.idxLe(dst.Len, sLen), dst.Len, sLen))
-	if r.bv || isStr || r.e.noContents {
+	if r.bv || isStr || !r.contents {
 		r.havocArgs(st, []Val{dst})
 		return n
 	}
